@@ -1,65 +1,154 @@
 import Log4rsModel.Rolling.LemmasRoller
 /-
 C05: ghost segmentation of the record stream into files, the invariant tying it to the disk, and
-its preservation by every operation — for any trigger and any roller satisfying `RollContract`.
+its preservation by every operation — for any trigger and any roller satisfying `RollContractE`
+(every call of the roller discards at most one whole oldest archive; a call that reports `Err`
+either left the log file alone or had already archived it).
 -/
 namespace Log4rs.Rolling
 open Log4rs.Roller
 
 variable {σ : Type}
 
+/-- What the no-loss argument needs of a roller (`arch` = the retained archives, oldest first):
+* `arch` looks only at paths other than the log file;
+* success: the log file is gone, its content is the newest archive, at most ONE whole oldest
+  archive was discarded;
+* `Err`: either the log file is untouched and at most one whole oldest archive was discarded (a
+  rotation that stopped half-way), or the roller had finished its work before reporting the error
+  (log file gone, content archived, again at most one oldest archive discarded). What is excluded:
+  an `Err` that leaves the content BOTH in the archive and in the log file. -/
+structure RollContractE (roll : RollFn) (path : Path) (arch : Disk → List Bytes) : Prop where
+  frame : ∀ d d', (∀ q, q ≠ path → d'.get? q = d.get? q) → arch d' = arch d
+  ok : ∀ fault d x d' a, roll path fault d = (.ok x, d') → d.get? path = some a →
+    d'.get? path = none ∧ ∃ j, j ≤ 1 ∧ arch d' = (arch d ++ [a]).drop j
+  err : ∀ fault d e d' a, roll path fault d = (.error e, d') → d.get? path = some a →
+    (d'.get? path = some a ∧ ∃ j, j ≤ 1 ∧ arch d' = (arch d).drop j) ∨
+    (d'.get? path = none ∧ ∃ j, j ≤ 1 ∧ arch d' = (arch d ++ [a]).drop j)
+
+theorem RollContractB.toE {roll : RollFn} {path : Path} {arch : Disk → List Bytes}
+    (h : RollContractB roll path arch) : RollContractE roll path arch where
+  frame := h.frame
+  ok := fun fault d x d' a hr hg => ⟨(h.ok fault d x d' a hr hg).1, h.okB fault d x d' a hr hg⟩
+  err := fun fault d e d' a hr hg => Or.inl ⟨by rw [(h.err fault d e d' hr).1, hg], h.errB fault d e d' hr⟩
+
+theorem RollContractE.late {inner : RollFn} {path : Path} {arch : Disk → List Bytes}
+    (h : RollContractE inner path arch) (late : Nat) : RollContractE (lateRoll inner late) path arch where
+  frame := h.frame
+  ok := by
+    intro fault d x d' a hr hg
+    unfold lateRoll at hr
+    by_cases hf : fault late
+    · simp only [hf, if_true] at hr
+      rcases hin : inner path (fun _ => false) d with ⟨res, dd⟩
+      rw [hin] at hr
+      cases res with
+      | ok y => simp at hr
+      | error e => simp at hr
+    · simp only [hf] at hr
+      exact h.ok fault d x d' a hr hg
+  err := by
+    intro fault d e d' a hr hg
+    unfold lateRoll at hr
+    by_cases hf : fault late
+    · simp only [hf, if_true] at hr
+      rcases hin : inner path (fun _ => false) d with ⟨res, dd⟩
+      rw [hin] at hr
+      cases res with
+      | ok y =>
+        simp only at hr
+        have hd : dd = d' := (Prod.mk.inj hr).2
+        subst hd
+        exact Or.inr (h.ok _ d y dd a hin hg)
+      | error e' =>
+        simp only at hr
+        have hd : dd = d' := (Prod.mk.inj hr).2
+        subst hd
+        exact h.err _ d e' dd a hin hg
+    · simp only [hf] at hr
+      exact h.err fault d e d' a hr hg
+
 /-- ghost state: the stream of written items (whole encoded records; pre-existing contents are
-opaque items) cut into files — `closed` oldest first, `cur` = the active file -/
+opaque items) cut into files — `closed` oldest first, `cur` = the active file — and the number of
+times the roller has been called -/
 structure Ghost where
   closed : List (List Bytes)
   cur : List Bytes
+  calls : Nat := 0
 
-/-- how one operation moves the ghost (reads only the operation and its visible result) -/
-def ghostStep (cfg : Cfg σ) (g : Ghost) (op : Op) (o : Option Out) : Ghost :=
+/-- the operation closed the current segment: the roller succeeded, or it reported `Err` after
+having archived the file (`gone` = the log file does not exist after the operation) -/
+def closes (out : Out) (gone : Bool) : Bool :=
+  out.rolled == some true || (out.rolled == some false && gone)
+
+def callsOfOut (out : Out) : Nat := if out.rolled.isSome then 1 else 0
+
+/-- how one operation moves the ghost; it reads the operation, its visible result and whether the
+log file exists afterwards. A failed append (`appendFail`, or any `Err` in pre-process mode)
+writes nothing; in post-process mode the record is written before the policy runs. -/
+def ghostStepX (cfg : Cfg σ) (g : Ghost) (op : XOp) (o : Option Out) (gone : Bool) : Ghost :=
   match op, o with
-  | .append r _, some out =>
+  | .op (.append r _), some out =>
+    let g := { g with calls := g.calls + callsOfOut out }
     if cfg.trig.pre then
-      if out.rolled = some true then { closed := g.closed ++ [g.cur], cur := [encBytes r] }
+      if closes out gone then
+        { g with closed := g.closed ++ [g.cur], cur := if out.res = .ok then [encBytes r] else [] }
       else if out.res = .ok then { g with cur := g.cur ++ [encBytes r] }
       else g
     else
-      if out.rolled = some true then { closed := g.closed ++ [g.cur ++ [encBytes r]], cur := [] }
+      if closes out gone then { g with closed := g.closed ++ [g.cur ++ [encBytes r]], cur := [] }
       else { g with cur := g.cur ++ [encBytes r] }
-  | .restart, _ => if cfg.appendMode then g else { g with cur := [] }
+  | .appendFail _ _ _, some out =>
+    let g := { g with calls := g.calls + callsOfOut out }
+    if cfg.trig.pre ∧ closes out gone then { g with closed := g.closed ++ [g.cur], cur := [] } else g
+  | .op .restart, _ => if cfg.appendMode then g else { g with cur := [] }
   | _, _ => g
 
-/-- run a history with its ghost -/
-def grun (cfg : Cfg σ) (s : St σ) (g : Ghost) : List Op → List (Option Out) × St σ × Ghost
+def goneAfter (cfg : Cfg σ) (s : St σ) : Bool := (s.disk.get? cfg.path).isNone
+
+/-- run a history with its ghost: outputs, final state, final ghost -/
+def grunX (cfg : Cfg σ) (s : St σ) (g : Ghost) : List XOp → List (Option Out) × St σ × Ghost
   | [] => ([], s, g)
   | op :: ops =>
-    let r := applyOp cfg s op
-    let rest := grun cfg r.2 (ghostStep cfg g op r.1) ops
+    let r := applyX cfg s op
+    let rest := grunX cfg r.2 (ghostStepX cfg g op r.1 (goneAfter cfg r.2)) ops
     (r.1 :: rest.1, rest.2)
 
-theorem grun_fst_snd (cfg : Cfg σ) (s : St σ) (g : Ghost) (ops : List Op) :
-    ((grun cfg s g ops).1, (grun cfg s g ops).2.1) = run cfg s ops := by
+theorem grunX_outs (cfg : Cfg σ) (s : St σ) (g : Ghost) (ops : List XOp) :
+    (grunX cfg s g ops).1 = (traceX cfg s ops).map (·.1) := by
   induction ops generalizing s g with
   | nil => rfl
-  | cons op ops ih =>
-    have := ih (applyOp cfg s op).2 (ghostStep cfg g op (applyOp cfg s op).1)
-    simp only [grun, run]
-    rw [← this]
+  | cons op ops ih => simp [grunX, traceX, ih]
+
+theorem traceX_length (cfg : Cfg σ) (s : St σ) (ops : List XOp) : (traceX cfg s ops).length = ops.length := by
+  induction ops generalizing s with
+  | nil => rfl
+  | cons op ops ih => simp [traceX, ih]
+
+theorem grunX_append (cfg : Cfg σ) (s : St σ) (g : Ghost) (ops1 ops2 : List XOp) :
+    grunX cfg s g (ops1 ++ ops2) =
+      ((grunX cfg s g ops1).1 ++ (grunX cfg (grunX cfg s g ops1).2.1 (grunX cfg s g ops1).2.2 ops2).1,
+       (grunX cfg (grunX cfg s g ops1).2.1 (grunX cfg s g ops1).2.2 ops2).2) := by
+  induction ops1 generalizing s g with
+  | nil => simp [grunX]
+  | cons op ops ih => simp [grunX, ih]
 
 structure Inv (cfg : Cfg σ) (arch : Disk → List Bytes) (s : St σ) (g : Ghost) : Prop where
   wf : WF cfg s
-  /-- the retained archives are a whole-file suffix of the closed segments -/
-  archives : ∃ k, arch s.disk = (g.closed.drop k).map List.flatten
+  /-- the retained archives are a whole-file suffix of the closed segments; at most one segment
+  has been discarded per call of the roller -/
+  archives : ∃ k, k ≤ g.calls ∧ arch s.disk = (g.closed.drop k).map List.flatten
   /-- the active file holds exactly the current segment -/
   active : fileOf cfg s.disk = g.cur.flatten
 
 theorem drop_map_snoc {α β : Type} (f : α → β) (l : List α) (c : α) (k j : Nat) :
-    ∃ k', (((l.drop k).map f) ++ [f c]).drop j = ((l ++ [c]).drop k').map f := by
+    ∃ k', k' ≤ k + j ∧ (((l.drop k).map f) ++ [f c]).drop j = ((l ++ [c]).drop k').map f := by
   by_cases hk : k ≤ l.length
-  · refine ⟨k + j, ?_⟩
+  · refine ⟨k + j, Nat.le_refl _, ?_⟩
     rw [← List.drop_drop, List.drop_append_of_le_length hk]
     simp [List.map_drop]
   · have : l.drop k = [] := List.drop_eq_nil_of_le (by omega)
-    refine ⟨l.length + j, ?_⟩
+    refine ⟨l.length + j, by omega, ?_⟩
     rw [this, ← List.drop_drop, List.drop_append_of_le_length (Nat.le_refl _)]
     simp [List.map_drop]
 
@@ -71,6 +160,10 @@ theorem openView_eq_cur (cfg : Cfg σ) (arch : Disk → List Bytes) (s : St σ) 
 theorem fileOf_opened {cfg : Cfg σ} {s : St σ} {a : Bytes} (h : Opened cfg s a) : fileOf cfg s.disk = a := by
   obtain ⟨_, _, _, hg, _⟩ := h
   exact fileOf_of_get hg
+
+theorem goneAfter_opened {cfg : Cfg σ} {s : St σ} {a : Bytes} (h : Opened cfg s a) : goneAfter cfg s = false := by
+  obtain ⟨_, _, _, hg, _⟩ := h
+  simp [goneAfter, hg]
 
 /-- `restart`: the new appender finds what the old one left (append mode) or an emptied file -/
 theorem restart_spec (cfg : Cfg σ) (s : St σ) (hwf : WF cfg s) :
@@ -95,28 +188,40 @@ theorem restart_spec (cfg : Cfg σ) (s : St σ) (hwf : WF cfg s) :
   rw [hd.1] at h
   exact ⟨h.1, hd.2.trans h.2.2.1⟩
 
+
 theorem Inv.restartStep {cfg : Cfg σ} {arch : Disk → List Bytes} {s : St σ} {g : Ghost}
     (hframe : ∀ d d', (∀ q, q ≠ cfg.path → d'.get? q = d.get? q) → arch d' = arch d)
-    (inv : Inv cfg arch s g) : Inv cfg arch (restart cfg s) (ghostStep cfg g .restart none) := by
+    (inv : Inv cfg arch s g) (gone : Bool) :
+    Inv cfg arch (restart cfg s) (ghostStepX cfg g (.op .restart) none gone) := by
   obtain ⟨ho, hse⟩ := restart_spec cfg s inv.wf
-  refine ⟨WF_restart cfg s, ?_, ?_⟩
-  · obtain ⟨k, hk⟩ := inv.archives
-    refine ⟨k, ?_⟩
-    rw [hframe _ _ hse, hk]
-    simp only [ghostStep]
+  obtain ⟨k, hkc, hk⟩ := inv.archives
+  refine ⟨WF_restart cfg s, ⟨k, ?_, ?_⟩, ?_⟩
+  · simp only [ghostStepX]; split <;> exact hkc
+  · rw [hframe _ _ hse, hk]
+    simp only [ghostStepX]
     split <;> rfl
   · rw [fileOf_opened ho]
-    simp only [ghostStep]
+    simp only [ghostStepX]
     cases ha : cfg.appendMode with
     | true => simpa using inv.active
     | false => simp
 
+/-- the three shapes of a roller outcome, as the ghost sees them -/
+theorem closes_true (gone : Bool) (out : Out) (h : out.rolled = some true) : closes out gone = true := by
+  simp [closes, h]
+theorem closes_none (gone : Bool) (out : Out) (h : out.rolled = none) : closes out gone = false := by
+  simp [closes, h]
+theorem closes_false (gone : Bool) (out : Out) (h : out.rolled = some false) : closes out gone = gone := by
+  simp [closes, h]
+
 theorem Inv.appendStep {cfg : Cfg σ} {arch : Disk → List Bytes} {s : St σ} {g : Ghost}
-    (hc : RollContract cfg.roll cfg.path arch)
+    (hc : RollContractE cfg.roll cfg.path arch)
     (inv : Inv cfg arch s g) (r : Rec) (f : Option Nat) :
-    Inv cfg arch (append cfg s r (faultFn f)).2 (ghostStep cfg g (.append r f) (some (append cfg s r (faultFn f)).1)) := by
+    Inv cfg arch (append cfg s r (faultFn f)).2
+      (ghostStepX cfg g (.op (.append r f)) (some (append cfg s r (faultFn f)).1)
+        (goneAfter cfg (append cfg s r (faultFn f)).2)) := by
   have hov := openView_eq_cur cfg arch s g inv
-  obtain ⟨k, hk⟩ := inv.archives
+  obtain ⟨k, hkc, hk⟩ := inv.archives
   have hwf' := (append_wf cfg s r (faultFn f) inv.wf).1
   cases hpre : cfg.trig.pre with
   | true =>
@@ -125,63 +230,86 @@ theorem Inv.appendStep {cfg : Cfg σ} {arch : Disk → List Bytes} {s : St σ} {
     cases hans : (cfg.trig.fire s.tst (openView cfg s).length s.now).1 with
     | no =>
       obtain ⟨hr, hro, ho, hse⟩ := hno hans
-      have hg : ghostStep cfg g (.append r f) (some (append cfg s r (faultFn f)).1) = { g with cur := g.cur ++ [encBytes r] } := by
-        simp [ghostStep, hpre, hro, hr]
+      have hg : ghostStepX cfg g (.op (.append r f)) (some (append cfg s r (faultFn f)).1)
+          (goneAfter cfg (append cfg s r (faultFn f)).2) = { g with cur := g.cur ++ [encBytes r] } := by
+        simp [ghostStepX, hpre, closes_none _ _ hro, hr, callsOfOut, hro]
       rw [hg]
-      refine ⟨hwf', ⟨k, by rw [hc.frame _ _ hse, hk]⟩, ?_⟩
+      refine ⟨hwf', ⟨k, hkc, by rw [hc.frame _ _ hse, hk]⟩, ?_⟩
       rw [fileOf_opened ho, hov]
       simp
     | err =>
       obtain ⟨hr, hro, ho, hse⟩ := herr hans
-      have hg : ghostStep cfg g (.append r f) (some (append cfg s r (faultFn f)).1) = g := by
-        simp [ghostStep, hpre, hro, hr]
+      have hg : ghostStepX cfg g (.op (.append r f)) (some (append cfg s r (faultFn f)).1)
+          (goneAfter cfg (append cfg s r (faultFn f)).2) = g := by
+        simp [ghostStepX, hpre, closes_none _ _ hro, hr, callsOfOut, hro]
       rw [hg]
-      refine ⟨hwf', ⟨k, by rw [hc.frame _ _ hse, hk]⟩, ?_⟩
+      refine ⟨hwf', ⟨k, hkc, by rw [hc.frame _ _ hse, hk]⟩, ?_⟩
       rw [fileOf_opened ho, hov]
     | yes =>
       obtain ⟨d1, hg1, hse1, h⟩ := hyes hans
       rcases h with ⟨x, hx, hr, hro, ho, hse⟩ | ⟨e, he, hr, hro, hw, hd⟩
       · have hroll : cfg.roll cfg.path (faultFn f) d1 = (.ok x, (cfg.roll cfg.path (faultFn f) d1).2) := by
           rw [← hx]
-        obtain ⟨hgone, j, harch⟩ := hc.ok _ d1 x _ _ hroll hg1
+        obtain ⟨hgone, j, hj, harch⟩ := hc.ok _ d1 x _ _ hroll hg1
         have hfile : fileOf cfg (cfg.roll cfg.path (faultFn f) d1).2 = [] := by simp [fileOf, hgone]
         rw [hfile] at ho
-        have hg : ghostStep cfg g (.append r f) (some (append cfg s r (faultFn f)).1) = { closed := g.closed ++ [g.cur], cur := [encBytes r] } := by
-          simp [ghostStep, hpre, hro]
+        have hg : ghostStepX cfg g (.op (.append r f)) (some (append cfg s r (faultFn f)).1)
+            (goneAfter cfg (append cfg s r (faultFn f)).2) =
+            { closed := g.closed ++ [g.cur], cur := [encBytes r], calls := g.calls + 1 } := by
+          simp [ghostStepX, hpre, closes_true _ _ hro, hr, callsOfOut, hro]
         rw [hg]
-        refine ⟨hwf', ?_, ?_⟩
+        obtain ⟨k', hk', hkk⟩ := drop_map_snoc List.flatten g.closed g.cur k j
+        refine ⟨hwf', ⟨k', by simp only; omega, ?_⟩, ?_⟩
         · rw [hc.frame _ _ hse, harch, hc.frame _ _ hse1, hk, hov]
-          exact drop_map_snoc List.flatten g.closed g.cur k j
+          exact hkk
         · rw [fileOf_opened ho]
           simp
       · have hroll : cfg.roll cfg.path (faultFn f) d1 = (.error e, (cfg.roll cfg.path (faultFn f) d1).2) := by
           rw [← he]
-        obtain ⟨hsame, j, harch⟩ := hc.err _ d1 e _ hroll
-        have hg : ghostStep cfg g (.append r f) (some (append cfg s r (faultFn f)).1) = g := by
-          simp [ghostStep, hpre, hro, hr]
-        rw [hg]
-        refine ⟨hwf', ⟨k + j, ?_⟩, ?_⟩
-        · rw [hd, harch, hc.frame _ _ hse1, hk, ← List.map_drop, List.drop_drop]
-        · rw [hd, fileOf, hsame, hg1, hov]
-          rfl
+        rcases hc.err _ d1 e _ _ hroll hg1 with ⟨hsame, j, hj, harch⟩ | ⟨hgone, j, hj, harch⟩
+        · have hgn : goneAfter cfg (append cfg s r (faultFn f)).2 = false := by
+            simp [goneAfter, hd, hsame]
+          have hg : ghostStepX cfg g (.op (.append r f)) (some (append cfg s r (faultFn f)).1)
+              (goneAfter cfg (append cfg s r (faultFn f)).2) = { g with calls := g.calls + 1 } := by
+            simp [ghostStepX, hpre, closes_false _ _ hro, hgn, hr, callsOfOut, hro]
+          rw [hg]
+          refine ⟨hwf', ⟨k + j, by simp only; omega, ?_⟩, ?_⟩
+          · rw [hd, harch, hc.frame _ _ hse1, hk, ← List.map_drop, List.drop_drop]
+          · rw [hd, fileOf, hsame, hov]
+            rfl
+        · have hgn : goneAfter cfg (append cfg s r (faultFn f)).2 = true := by
+            simp [goneAfter, hd, hgone]
+          have hg : ghostStepX cfg g (.op (.append r f)) (some (append cfg s r (faultFn f)).1)
+              (goneAfter cfg (append cfg s r (faultFn f)).2) =
+              { closed := g.closed ++ [g.cur], cur := [], calls := g.calls + 1 } := by
+            simp [ghostStepX, hpre, closes_false _ _ hro, hgn, hr, callsOfOut, hro]
+          rw [hg]
+          obtain ⟨k', hk', hkk⟩ := drop_map_snoc List.flatten g.closed g.cur k j
+          refine ⟨hwf', ⟨k', by simp only; omega, ?_⟩, ?_⟩
+          · rw [hd, harch, hc.frame _ _ hse1, hk, hov]
+            exact hkk
+          · rw [hd]
+            simp [fileOf, hgone]
   | false =>
     obtain ⟨_, _, _, _, hno, herr, hyes⟩ := append_post_spec cfg s r (faultFn f) inv.wf hpre _ _
       (append cfg s r (faultFn f)).1 (append cfg s r (faultFn f)).2 rfl rfl rfl
     cases hans : (cfg.trig.fire s.tst (openView cfg s ++ encBytes r).length s.now).1 with
     | no =>
       obtain ⟨hr, hro, ho, hse⟩ := hno hans
-      have hg : ghostStep cfg g (.append r f) (some (append cfg s r (faultFn f)).1) = { g with cur := g.cur ++ [encBytes r] } := by
-        simp [ghostStep, hpre, hro]
+      have hg : ghostStepX cfg g (.op (.append r f)) (some (append cfg s r (faultFn f)).1)
+          (goneAfter cfg (append cfg s r (faultFn f)).2) = { g with cur := g.cur ++ [encBytes r] } := by
+        simp [ghostStepX, hpre, closes_none _ _ hro, callsOfOut, hro]
       rw [hg]
-      refine ⟨hwf', ⟨k, by rw [hc.frame _ _ hse, hk]⟩, ?_⟩
+      refine ⟨hwf', ⟨k, hkc, by rw [hc.frame _ _ hse, hk]⟩, ?_⟩
       rw [fileOf_opened ho, hov]
       simp
     | err =>
       obtain ⟨hr, hro, ho, hse⟩ := herr hans
-      have hg : ghostStep cfg g (.append r f) (some (append cfg s r (faultFn f)).1) = { g with cur := g.cur ++ [encBytes r] } := by
-        simp [ghostStep, hpre, hro]
+      have hg : ghostStepX cfg g (.op (.append r f)) (some (append cfg s r (faultFn f)).1)
+          (goneAfter cfg (append cfg s r (faultFn f)).2) = { g with cur := g.cur ++ [encBytes r] } := by
+        simp [ghostStepX, hpre, closes_none _ _ hro, callsOfOut, hro]
       rw [hg]
-      refine ⟨hwf', ⟨k, by rw [hc.frame _ _ hse, hk]⟩, ?_⟩
+      refine ⟨hwf', ⟨k, hkc, by rw [hc.frame _ _ hse, hk]⟩, ?_⟩
       rw [fileOf_opened ho, hov]
       simp
     | yes =>
@@ -189,35 +317,139 @@ theorem Inv.appendStep {cfg : Cfg σ} {arch : Disk → List Bytes} {s : St σ} {
       rcases h with ⟨x, hx, hr, hro⟩ | ⟨e, he, hr, hro⟩
       · have hroll : cfg.roll cfg.path (faultFn f) d1 = (.ok x, (cfg.roll cfg.path (faultFn f) d1).2) := by
           rw [← hx]
-        obtain ⟨hgone, j, harch⟩ := hc.ok _ d1 x _ _ hroll hg1
-        have hg : ghostStep cfg g (.append r f) (some (append cfg s r (faultFn f)).1) = { closed := g.closed ++ [g.cur ++ [encBytes r]], cur := [] } := by
-          simp [ghostStep, hpre, hro]
+        obtain ⟨hgone, j, hj, harch⟩ := hc.ok _ d1 x _ _ hroll hg1
+        have hg : ghostStepX cfg g (.op (.append r f)) (some (append cfg s r (faultFn f)).1)
+            (goneAfter cfg (append cfg s r (faultFn f)).2) =
+            { closed := g.closed ++ [g.cur ++ [encBytes r]], cur := [], calls := g.calls + 1 } := by
+          simp [ghostStepX, hpre, closes_true _ _ hro, callsOfOut, hro]
         rw [hg]
-        refine ⟨hwf', ?_, ?_⟩
+        obtain ⟨k', hk', hkk⟩ := drop_map_snoc List.flatten g.closed (g.cur ++ [encBytes r]) k j
+        refine ⟨hwf', ⟨k', by simp only; omega, ?_⟩, ?_⟩
         · rw [hd, harch, hc.frame _ _ hse1, hk, hov]
-          have := drop_map_snoc List.flatten g.closed (g.cur ++ [encBytes r]) k j
-          simpa using this
+          simpa using hkk
         · rw [hd]
           simp [fileOf, hgone]
       · have hroll : cfg.roll cfg.path (faultFn f) d1 = (.error e, (cfg.roll cfg.path (faultFn f) d1).2) := by
           rw [← he]
-        obtain ⟨hsame, j, harch⟩ := hc.err _ d1 e _ hroll
-        have hg : ghostStep cfg g (.append r f) (some (append cfg s r (faultFn f)).1) = { g with cur := g.cur ++ [encBytes r] } := by
-          simp [ghostStep, hpre, hro]
-        rw [hg]
-        refine ⟨hwf', ⟨k + j, ?_⟩, ?_⟩
-        · rw [hd, harch, hc.frame _ _ hse1, hk, ← List.map_drop, List.drop_drop]
-        · rw [hd, fileOf, hsame, hg1, hov]
-          simp
+        rcases hc.err _ d1 e _ _ hroll hg1 with ⟨hsame, j, hj, harch⟩ | ⟨hgone, j, hj, harch⟩
+        · have hgn : goneAfter cfg (append cfg s r (faultFn f)).2 = false := by
+            simp [goneAfter, hd, hsame]
+          have hg : ghostStepX cfg g (.op (.append r f)) (some (append cfg s r (faultFn f)).1)
+              (goneAfter cfg (append cfg s r (faultFn f)).2) =
+              { g with cur := g.cur ++ [encBytes r], calls := g.calls + 1 } := by
+            simp [ghostStepX, hpre, closes_false _ _ hro, hgn, callsOfOut, hro]
+          rw [hg]
+          refine ⟨hwf', ⟨k + j, by simp only; omega, ?_⟩, ?_⟩
+          · rw [hd, harch, hc.frame _ _ hse1, hk, ← List.map_drop, List.drop_drop]
+          · rw [hd, fileOf, hsame, hov]
+            simp
+        · have hgn : goneAfter cfg (append cfg s r (faultFn f)).2 = true := by
+            simp [goneAfter, hd, hgone]
+          have hg : ghostStepX cfg g (.op (.append r f)) (some (append cfg s r (faultFn f)).1)
+              (goneAfter cfg (append cfg s r (faultFn f)).2) =
+              { closed := g.closed ++ [g.cur ++ [encBytes r]], cur := [], calls := g.calls + 1 } := by
+            simp [ghostStepX, hpre, closes_false _ _ hro, hgn, callsOfOut, hro]
+          rw [hg]
+          obtain ⟨k', hk', hkk⟩ := drop_map_snoc List.flatten g.closed (g.cur ++ [encBytes r]) k j
+          refine ⟨hwf', ⟨k', by simp only; omega, ?_⟩, ?_⟩
+          · rw [hd, harch, hc.frame _ _ hse1, hk, hov]
+            simpa using hkk
+          · rw [hd]
+            simp [fileOf, hgone]
 
-theorem Inv.step {cfg : Cfg σ} {arch : Disk → List Bytes} {s : St σ} {g : Ghost}
-    (hc : RollContract cfg.roll cfg.path arch)
-    (inv : Inv cfg arch s g) (op : Op) :
-    Inv cfg arch (applyOp cfg s op).2 (ghostStep cfg g op (applyOp cfg s op).1) := by
+theorem Inv.appendFailStep {cfg : Cfg σ} {arch : Disk → List Bytes} {s : St σ} {g : Ghost}
+    (hc : RollContractE cfg.roll cfg.path arch) (inv : Inv cfg arch s g) (r : Rec) (n : Nat) (f : Option Nat) :
+    Inv cfg arch (appendFail cfg s r n (faultFn f)).2
+      (ghostStepX cfg g (.appendFail r n f) (some (appendFail cfg s r n (faultFn f)).1)
+        (goneAfter cfg (appendFail cfg s r n (faultFn f)).2)) := by
+  have hov := openView_eq_cur cfg arch s g inv
+  obtain ⟨k, hkc, hk⟩ := inv.archives
+  have hwf' := appendFail_wf cfg s r n (faultFn f) inv.wf
+  cases hpre : cfg.trig.pre with
+  | true =>
+    obtain ⟨_, _, _, _, hno, herr, hyes⟩ := appendFail_pre_spec cfg s r n (faultFn f) inv.wf hpre _ _
+      (appendFail cfg s r n (faultFn f)).1 (appendFail cfg s r n (faultFn f)).2 rfl rfl rfl
+    cases hans : (cfg.trig.fire s.tst (openView cfg s).length s.now).1 with
+    | no =>
+      obtain ⟨hr, hro, ho, hse⟩ := hno hans
+      have hg : ghostStepX cfg g (.appendFail r n f) (some (appendFail cfg s r n (faultFn f)).1)
+          (goneAfter cfg (appendFail cfg s r n (faultFn f)).2) = g := by
+        simp [ghostStepX, closes_none _ _ hro, callsOfOut, hro]
+      rw [hg]
+      refine ⟨hwf', ⟨k, hkc, by rw [hc.frame _ _ hse, hk]⟩, ?_⟩
+      rw [fileOf_opened ho, hov]
+    | err =>
+      obtain ⟨hr, hro, ho, hse⟩ := herr hans
+      have hg : ghostStepX cfg g (.appendFail r n f) (some (appendFail cfg s r n (faultFn f)).1)
+          (goneAfter cfg (appendFail cfg s r n (faultFn f)).2) = g := by
+        simp [ghostStepX, closes_none _ _ hro, callsOfOut, hro]
+      rw [hg]
+      refine ⟨hwf', ⟨k, hkc, by rw [hc.frame _ _ hse, hk]⟩, ?_⟩
+      rw [fileOf_opened ho, hov]
+    | yes =>
+      obtain ⟨d1, hg1, hse1, h⟩ := hyes hans
+      rcases h with ⟨x, hx, hr, hro, ho, hse⟩ | ⟨e, he, hr, hro, hw, hd⟩
+      · have hroll : cfg.roll cfg.path (faultFn f) d1 = (.ok x, (cfg.roll cfg.path (faultFn f) d1).2) := by
+          rw [← hx]
+        obtain ⟨hgone, j, hj, harch⟩ := hc.ok _ d1 x _ _ hroll hg1
+        have hfile : fileOf cfg (cfg.roll cfg.path (faultFn f) d1).2 = [] := by simp [fileOf, hgone]
+        rw [hfile] at ho
+        have hg : ghostStepX cfg g (.appendFail r n f) (some (appendFail cfg s r n (faultFn f)).1)
+            (goneAfter cfg (appendFail cfg s r n (faultFn f)).2) =
+            { closed := g.closed ++ [g.cur], cur := [], calls := g.calls + 1 } := by
+          simp [ghostStepX, hpre, closes_true _ _ hro, callsOfOut, hro]
+        rw [hg]
+        obtain ⟨k', hk', hkk⟩ := drop_map_snoc List.flatten g.closed g.cur k j
+        refine ⟨hwf', ⟨k', by simp only; omega, ?_⟩, ?_⟩
+        · rw [hc.frame _ _ hse, harch, hc.frame _ _ hse1, hk, hov]
+          exact hkk
+        · rw [fileOf_opened ho]
+          simp
+      · have hroll : cfg.roll cfg.path (faultFn f) d1 = (.error e, (cfg.roll cfg.path (faultFn f) d1).2) := by
+          rw [← he]
+        rcases hc.err _ d1 e _ _ hroll hg1 with ⟨hsame, j, hj, harch⟩ | ⟨hgone, j, hj, harch⟩
+        · have hgn : goneAfter cfg (appendFail cfg s r n (faultFn f)).2 = false := by
+            simp [goneAfter, hd, hsame]
+          have hg : ghostStepX cfg g (.appendFail r n f) (some (appendFail cfg s r n (faultFn f)).1)
+              (goneAfter cfg (appendFail cfg s r n (faultFn f)).2) = { g with calls := g.calls + 1 } := by
+            simp [ghostStepX, closes_false _ _ hro, hgn, callsOfOut, hro]
+          rw [hg]
+          refine ⟨hwf', ⟨k + j, by simp only; omega, ?_⟩, ?_⟩
+          · rw [hd, harch, hc.frame _ _ hse1, hk, ← List.map_drop, List.drop_drop]
+          · rw [hd, fileOf, hsame, hov]
+            rfl
+        · have hgn : goneAfter cfg (appendFail cfg s r n (faultFn f)).2 = true := by
+            simp [goneAfter, hd, hgone]
+          have hg : ghostStepX cfg g (.appendFail r n f) (some (appendFail cfg s r n (faultFn f)).1)
+              (goneAfter cfg (appendFail cfg s r n (faultFn f)).2) =
+              { closed := g.closed ++ [g.cur], cur := [], calls := g.calls + 1 } := by
+            simp [ghostStepX, hpre, closes_false _ _ hro, hgn, callsOfOut, hro]
+          rw [hg]
+          obtain ⟨k', hk', hkk⟩ := drop_map_snoc List.flatten g.closed g.cur k j
+          refine ⟨hwf', ⟨k', by simp only; omega, ?_⟩, ?_⟩
+          · rw [hd, harch, hc.frame _ _ hse1, hk, hov]
+            exact hkk
+          · rw [hd]
+            simp [fileOf, hgone]
+  | false =>
+    obtain ⟨hout, ho, hse, _, _, _⟩ := appendFail_post_spec cfg s r n (faultFn f) inv.wf hpre
+    have hg : ghostStepX cfg g (.appendFail r n f) (some (appendFail cfg s r n (faultFn f)).1)
+        (goneAfter cfg (appendFail cfg s r n (faultFn f)).2) = g := by
+      simp [ghostStepX, hpre, hout, callsOfOut]
+    rw [hg]
+    refine ⟨hwf', ⟨k, hkc, by rw [hc.frame _ _ hse, hk]⟩, ?_⟩
+    rw [fileOf_opened ho, hov]
+
+theorem Inv.stepX {cfg : Cfg σ} {arch : Disk → List Bytes} {s : St σ} {g : Ghost}
+    (hc : RollContractE cfg.roll cfg.path arch) (inv : Inv cfg arch s g) (op : XOp) :
+    Inv cfg arch (applyX cfg s op).2 (ghostStepX cfg g op (applyX cfg s op).1 (goneAfter cfg (applyX cfg s op).2)) := by
   cases op with
-  | append r f => exact inv.appendStep hc r f
-  | restart => exact inv.restartStep hc.frame
-  | tick dt => exact ⟨inv.wf, inv.archives, inv.active⟩
+  | appendFail r n f => exact inv.appendFailStep hc r n f
+  | op o =>
+    cases o with
+    | append r f => exact inv.appendStep hc r f
+    | restart => exact inv.restartStep hc.frame _
+    | tick dt => exact ⟨inv.wf, inv.archives, inv.active⟩
 
 /-- the ghost the first appender starts with: every pre-existing archive is one opaque closed
 segment, the pre-existing active content (append mode) is the first item of the current one -/
@@ -232,243 +464,105 @@ theorem Inv.atInit (cfg : Cfg σ) (arch : Disk → List Bytes)
     simpa [openView, init, build] using h.1
   have hse : SameElse cfg d (init cfg d t0 now).disk := by
     simpa [init, build] using h.2.2.1
-  refine ⟨WF_init cfg d t0 now, ⟨0, ?_⟩, ?_⟩
+  refine ⟨WF_init cfg d t0 now, ⟨0, Nat.zero_le _, ?_⟩, ?_⟩
   · rw [hframe _ _ hse]
     simp [Ghost.init, Function.comp_def]
   · rw [fileOf_opened ho]
     simp only [Ghost.init]
     split <;> simp
 
-theorem Inv.history {cfg : Cfg σ} {arch : Disk → List Bytes}
-    (hc : RollContract cfg.roll cfg.path arch)
-    (ops : List Op) {s : St σ} {g : Ghost} (inv : Inv cfg arch s g) :
-    Inv cfg arch (grun cfg s g ops).2.1 (grun cfg s g ops).2.2 := by
-  induction ops generalizing s g with
-  | nil => exact inv
-  | cons op ops ih => exact ih (inv.step hc op)
-
-end Log4rs.Rolling
-
-namespace Log4rs.Rolling
-open Log4rs.Roller
-
-variable {σ : Type}
-
-def Op.isRestart : Op → Bool
-  | .restart => true
-  | _ => false
-
-/-- did the record of this append reach the file? post-process: always (the policy runs after the
-flush); pre-process: iff the append returned `Ok` (after a successful roll it always does) -/
-def wrote (pre : Bool) (out : Out) : Bool :=
-  if pre then (out.rolled == some true || out.res == .ok) else true
-
-/-- the items written by a history, in write order -/
-def writtenItems (pre : Bool) : List Op → List (Option Out) → List Bytes
-  | .append r _ :: ops, some out :: outs => (if wrote pre out then [encBytes r] else []) ++ writtenItems pre ops outs
-  | _ :: ops, _ :: outs => writtenItems pre ops outs
-  | _, _ => []
-
-/-- the items whose append returned `Ok` (the acknowledged stream), in call order -/
-def ackedItems : List Op → List (Option Out) → List Bytes
-  | .append r _ :: ops, some out :: outs => (if out.res = .ok then [encBytes r] else []) ++ ackedItems ops outs
-  | _ :: ops, _ :: outs => ackedItems ops outs
-  | _, _ => []
-
-def Ghost.stream (g : Ghost) : List Bytes := (g.closed ++ [g.cur]).flatten
-
-theorem ghostStep_stream_append (cfg : Cfg σ) (g : Ghost) (r : Rec) (f : Option Nat) (out : Out) :
-    (ghostStep cfg g (.append r f) (some out)).stream =
-      g.stream ++ (if wrote cfg.trig.pre out then [encBytes r] else []) := by
-  simp only [ghostStep, wrote, Ghost.stream]
-  cases hpre : cfg.trig.pre with
-  | true =>
-    by_cases h1 : out.rolled = some true
-    · simp [h1]
-    · by_cases h2 : out.res = .ok
-      · simp [h1, h2]
-      · simp [h1, h2]
-  | false =>
-    by_cases h1 : out.rolled = some true <;> simp [h1]
-
-/-- the ghost is the written stream, in order, each item once -/
-theorem grun_stream (cfg : Cfg σ) (ops : List Op) (s : St σ) (g : Ghost)
-    (hnr : cfg.appendMode = true ∨ ∀ op ∈ ops, op.isRestart = false) :
-    (grun cfg s g ops).2.2.stream = g.stream ++ writtenItems cfg.trig.pre ops (grun cfg s g ops).1 := by
-  induction ops generalizing s g with
-  | nil => simp [grun, writtenItems]
-  | cons op ops ih =>
-    have hnr' : cfg.appendMode = true ∨ ∀ op ∈ ops, op.isRestart = false := by
-      rcases hnr with h | h
-      · exact Or.inl h
-      · exact Or.inr (fun o ho => h o (List.mem_cons_of_mem _ ho))
-    simp only [grun]
-    rw [ih _ _ hnr']
-    cases op with
-    | append r f =>
-      simp only [applyOp, writtenItems]
-      rw [ghostStep_stream_append]
-      simp
-    | restart =>
-      have : ghostStep cfg g .restart (applyOp cfg s .restart).1 = g := by
-        rcases hnr with h | h
-        · simp [ghostStep, h]
-        · have := h .restart (List.mem_cons_self ..)
-          simp [Op.isRestart] at this
-      rw [this]
-      simp [applyOp, writtenItems]
-    | tick dt => simp [applyOp, writtenItems, ghostStep]
-
-theorem acked_sublist_written (pre : Bool) (ops : List Op) (outs : List (Option Out)) :
-    (ackedItems ops outs).Sublist (writtenItems pre ops outs) := by
-  induction ops generalizing outs with
-  | nil => simp [ackedItems, writtenItems]
-  | cons op ops ih =>
-    cases outs with
-    | nil => cases op <;> simp [ackedItems, writtenItems]
-    | cons o outs =>
-      cases op with
-      | append r f =>
-        cases o with
-        | none => simpa [ackedItems, writtenItems] using ih outs
-        | some out =>
-          simp only [ackedItems, writtenItems]
-          apply List.Sublist.append _ (ih outs)
-          by_cases hok : out.res = .ok
-          · have : wrote pre out = true := by cases pre <;> simp [wrote, hok]
-            simp [hok, this]
-          · simp [hok]
-      | restart => simpa [ackedItems, writtenItems] using ih outs
-      | tick dt => simpa [ackedItems, writtenItems] using ih outs
-
-
-/-! ### histories with failing encoders (`XOp`) -/
-
-/-- a failed append writes nothing; in pre-process mode the policy has run before the encoder, so a
-rotation may have closed the current segment -/
-def ghostStepX (cfg : Cfg σ) (g : Ghost) (op : XOp) (o : Option Out) : Ghost :=
-  match op, o with
-  | .op op, o => ghostStep cfg g op o
-  | .appendFail _ _ _, some out =>
-    if cfg.trig.pre ∧ out.rolled = some true then { closed := g.closed ++ [g.cur], cur := [] } else g
-  | .appendFail _ _ _, none => g
-
-def grunX (cfg : Cfg σ) (s : St σ) (g : Ghost) : List XOp → List (Option Out) × St σ × Ghost
-  | [] => ([], s, g)
-  | op :: ops =>
-    let r := applyX cfg s op
-    let rest := grunX cfg r.2 (ghostStepX cfg g op r.1) ops
-    (r.1 :: rest.1, rest.2)
-
-theorem grunX_outs_state (cfg : Cfg σ) (s : St σ) (g : Ghost) (ops : List XOp) :
-    ((grunX cfg s g ops).1.zip ((traceX cfg s ops).map (·.2))) = (traceX cfg s ops).map (fun e => (e.1, e.2)) ∧
-    (grunX cfg s g ops).1 = (traceX cfg s ops).map (·.1) := by
-  induction ops generalizing s g with
-  | nil => exact ⟨rfl, rfl⟩
-  | cons op ops ih =>
-    obtain ⟨h1, h2⟩ := ih (applyX cfg s op).2 (ghostStepX cfg g op (applyX cfg s op).1)
-    simp only [grunX, traceX, List.map_cons, List.zip_cons_cons]
-    exact ⟨by rw [h1], by rw [h2]⟩
-
-theorem Inv.appendFailStep {cfg : Cfg σ} {arch : Disk → List Bytes} {s : St σ} {g : Ghost}
-    (hc : RollContract cfg.roll cfg.path arch) (inv : Inv cfg arch s g) (r : Rec) (n : Nat) (f : Option Nat) :
-    Inv cfg arch (appendFail cfg s r n (faultFn f)).2
-      (ghostStepX cfg g (.appendFail r n f) (some (appendFail cfg s r n (faultFn f)).1)) := by
-  have hov := openView_eq_cur cfg arch s g inv
-  obtain ⟨k, hk⟩ := inv.archives
-  have hwf' := appendFail_wf cfg s r n (faultFn f) inv.wf
-  cases hpre : cfg.trig.pre with
-  | true =>
-    obtain ⟨_, _, _, _, hno, herr, hyes⟩ := appendFail_pre_spec cfg s r n (faultFn f) inv.wf hpre _ _
-      (appendFail cfg s r n (faultFn f)).1 (appendFail cfg s r n (faultFn f)).2 rfl rfl rfl
-    cases hans : (cfg.trig.fire s.tst (openView cfg s).length s.now).1 with
-    | no =>
-      obtain ⟨hr, hro, ho, hse⟩ := hno hans
-      have hg : ghostStepX cfg g (.appendFail r n f) (some (appendFail cfg s r n (faultFn f)).1) = g := by
-        simp [ghostStepX, hro]
-      rw [hg]
-      refine ⟨hwf', ⟨k, by rw [hc.frame _ _ hse, hk]⟩, ?_⟩
-      rw [fileOf_opened ho, hov]
-    | err =>
-      obtain ⟨hr, hro, ho, hse⟩ := herr hans
-      have hg : ghostStepX cfg g (.appendFail r n f) (some (appendFail cfg s r n (faultFn f)).1) = g := by
-        simp [ghostStepX, hro]
-      rw [hg]
-      refine ⟨hwf', ⟨k, by rw [hc.frame _ _ hse, hk]⟩, ?_⟩
-      rw [fileOf_opened ho, hov]
-    | yes =>
-      obtain ⟨d1, hg1, hse1, h⟩ := hyes hans
-      rcases h with ⟨x, hx, hr, hro, ho, hse⟩ | ⟨e, he, hr, hro, hw, hd⟩
-      · have hroll : cfg.roll cfg.path (faultFn f) d1 = (.ok x, (cfg.roll cfg.path (faultFn f) d1).2) := by
-          rw [← hx]
-        obtain ⟨hgone, j, harch⟩ := hc.ok _ d1 x _ _ hroll hg1
-        have hfile : fileOf cfg (cfg.roll cfg.path (faultFn f) d1).2 = [] := by simp [fileOf, hgone]
-        rw [hfile] at ho
-        have hg : ghostStepX cfg g (.appendFail r n f) (some (appendFail cfg s r n (faultFn f)).1) =
-            { closed := g.closed ++ [g.cur], cur := [] } := by
-          simp [ghostStepX, hpre, hro]
-        rw [hg]
-        refine ⟨hwf', ?_, ?_⟩
-        · rw [hc.frame _ _ hse, harch, hc.frame _ _ hse1, hk, hov]
-          exact drop_map_snoc List.flatten g.closed g.cur k j
-        · rw [fileOf_opened ho]
-          simp
-      · have hroll : cfg.roll cfg.path (faultFn f) d1 = (.error e, (cfg.roll cfg.path (faultFn f) d1).2) := by
-          rw [← he]
-        obtain ⟨hsame, j, harch⟩ := hc.err _ d1 e _ hroll
-        have hg : ghostStepX cfg g (.appendFail r n f) (some (appendFail cfg s r n (faultFn f)).1) = g := by
-          simp [ghostStepX, hro]
-        rw [hg]
-        refine ⟨hwf', ⟨k + j, ?_⟩, ?_⟩
-        · rw [hd, harch, hc.frame _ _ hse1, hk, ← List.map_drop, List.drop_drop]
-        · rw [hd, fileOf, hsame, hg1, hov]
-          rfl
-  | false =>
-    obtain ⟨hout, ho, hse, _, _, _⟩ := appendFail_post_spec cfg s r n (faultFn f) inv.wf hpre
-    have hg : ghostStepX cfg g (.appendFail r n f) (some (appendFail cfg s r n (faultFn f)).1) = g := by
-      simp [ghostStepX, hpre]
-    rw [hg]
-    refine ⟨hwf', ⟨k, by rw [hc.frame _ _ hse, hk]⟩, ?_⟩
-    rw [fileOf_opened ho, hov]
-
-theorem Inv.stepX {cfg : Cfg σ} {arch : Disk → List Bytes} {s : St σ} {g : Ghost}
-    (hc : RollContract cfg.roll cfg.path arch) (inv : Inv cfg arch s g) (op : XOp) :
-    Inv cfg arch (applyX cfg s op).2 (ghostStepX cfg g op (applyX cfg s op).1) := by
-  cases op with
-  | op o => exact inv.step hc o
-  | appendFail r n f => exact inv.appendFailStep hc r n f
-
 theorem Inv.historyX {cfg : Cfg σ} {arch : Disk → List Bytes}
-    (hc : RollContract cfg.roll cfg.path arch)
+    (hc : RollContractE cfg.roll cfg.path arch)
     (ops : List XOp) {s : St σ} {g : Ghost} (inv : Inv cfg arch s g) :
     Inv cfg arch (grunX cfg s g ops).2.1 (grunX cfg s g ops).2.2 := by
   induction ops generalizing s g with
   | nil => exact inv
   | cons op ops ih => exact ih (inv.stepX hc op)
 
+/-! ### the ghost is the stream of written records -/
+
+/-- how often the roller was called in a run -/
+def rollCalls (outs : List (Option Out)) : Nat :=
+  (outs.map (fun o => match o with | some out => callsOfOut out | none => 0)).sum
+
+theorem ghostStepX_calls (cfg : Cfg σ) (s : St σ) (g : Ghost) (op : XOp) (gone : Bool) :
+    (ghostStepX cfg g op (applyX cfg s op).1 gone).calls =
+      g.calls + (match (applyX cfg s op).1 with | some out => callsOfOut out | none => 0) := by
+  cases op with
+  | appendFail r n f =>
+    simp only [applyX, ghostStepX]
+    split <;> rfl
+  | op oo =>
+    cases oo with
+    | append r f =>
+      simp only [applyX, applyOp, ghostStepX]
+      split <;> (try split) <;> (try split) <;> rfl
+    | restart =>
+      simp only [applyX, applyOp, ghostStepX]
+      split <;> rfl
+    | tick dt => rfl
+
+theorem grunX_calls (cfg : Cfg σ) (ops : List XOp) (s : St σ) (g : Ghost) :
+    (grunX cfg s g ops).2.2.calls = g.calls + rollCalls (grunX cfg s g ops).1 := by
+  induction ops generalizing s g with
+  | nil => simp [grunX, rollCalls]
+  | cons op ops ih =>
+    simp only [grunX]
+    rw [ih, ghostStepX_calls]
+    simp only [rollCalls, List.map_cons, List.sum_cons]
+    omega
+
+def Op.isRestart : Op → Bool
+  | .restart => true
+  | _ => false
+
 def XOp.isRestart : XOp → Bool
   | .op o => o.isRestart
   | .appendFail _ _ _ => false
 
-/-- the items written by a history with failing encoders: a failed append contributes nothing -/
+/-- did the record of this (successful-encoder) append reach the file? post-process: always (the
+policy runs after the flush); pre-process: iff the append returned `Ok` -/
+def wrote (pre : Bool) (out : Out) : Bool :=
+  if pre then out.res == .ok else true
+
+/-- the items written by a history, in write order; an append whose encoder failed contributes
+nothing -/
 def writtenItemsX (pre : Bool) : List XOp → List (Option Out) → List Bytes
   | .op (.append r _) :: ops, some out :: outs => (if wrote pre out then [encBytes r] else []) ++ writtenItemsX pre ops outs
   | _ :: ops, _ :: outs => writtenItemsX pre ops outs
   | _, _ => []
 
+/-- the items whose append returned `Ok` (the acknowledged stream), in call order -/
 def ackedItemsX : List XOp → List (Option Out) → List Bytes
   | .op (.append r _) :: ops, some out :: outs => (if out.res = .ok then [encBytes r] else []) ++ ackedItemsX ops outs
   | _ :: ops, _ :: outs => ackedItemsX ops outs
   | _, _ => []
 
-theorem ghostStepX_stream_appendFail (cfg : Cfg σ) (g : Ghost) (r : Rec) (n : Nat) (f : Option Nat) (o : Option Out) :
-    (ghostStepX cfg g (.appendFail r n f) o).stream = g.stream := by
+def Ghost.stream (g : Ghost) : List Bytes := (g.closed ++ [g.cur]).flatten
+
+theorem ghostStepX_stream_append (cfg : Cfg σ) (g : Ghost) (r : Rec) (f : Option Nat) (out : Out) (gone : Bool) :
+    (ghostStepX cfg g (.op (.append r f)) (some out) gone).stream =
+      g.stream ++ (if wrote cfg.trig.pre out then [encBytes r] else []) := by
+  simp only [ghostStepX, wrote, Ghost.stream]
+  cases hpre : cfg.trig.pre with
+  | true =>
+    by_cases h1 : closes out gone = true
+    · by_cases h2 : out.res = .ok <;> simp [h1, h2]
+    · by_cases h2 : out.res = .ok <;> simp [h1, h2]
+  | false =>
+    by_cases h1 : closes out gone = true <;> simp [h1]
+
+theorem ghostStepX_stream_appendFail (cfg : Cfg σ) (g : Ghost) (r : Rec) (n : Nat) (f : Option Nat) (o : Option Out) (gone : Bool) :
+    (ghostStepX cfg g (.appendFail r n f) o gone).stream = g.stream := by
   cases o with
   | none => rfl
   | some out =>
     simp only [ghostStepX, Ghost.stream]
     split <;> simp
 
+/-- the ghost is the written stream, in order, each item once — as long as no restart happens in
+truncate mode (which discards the active segment; see `grunX_stream_sublist` and
+`grunX_stream_after_restart` for that case) -/
 theorem grunX_stream (cfg : Cfg σ) (ops : List XOp) (s : St σ) (g : Ghost)
     (hnr : cfg.appendMode = true ∨ ∀ op ∈ ops, op.isRestart = false) :
     (grunX cfg s g ops).2.2.stream = g.stream ++ writtenItemsX cfg.trig.pre ops (grunX cfg s g ops).1 := by
@@ -488,18 +582,76 @@ theorem grunX_stream (cfg : Cfg σ) (ops : List XOp) (s : St σ) (g : Ghost)
     | op o =>
       cases o with
       | append r f =>
-        simp only [applyX, applyOp, writtenItemsX, ghostStepX]
-        rw [ghostStep_stream_append]
+        simp only [applyX, applyOp, writtenItemsX]
+        rw [ghostStepX_stream_append]
         simp
       | restart =>
-        have : ghostStepX cfg g (.op .restart) (applyX cfg s (.op .restart)).1 = g := by
+        have : ghostStepX cfg g (.op .restart) (applyX cfg s (.op .restart)).1
+            (goneAfter cfg (applyX cfg s (.op .restart)).2) = g := by
           rcases hnr with h | h
-          · simp [ghostStepX, ghostStep, h]
+          · simp [ghostStepX, h]
           · have := h (.op .restart) (List.mem_cons_self ..)
             simp [XOp.isRestart, Op.isRestart] at this
         rw [this]
         simp [applyX, applyOp, writtenItemsX]
-      | tick dt => simp [applyX, applyOp, writtenItemsX, ghostStepX, ghostStep]
+      | tick dt => simp [applyX, applyOp, writtenItemsX, ghostStepX]
+
+/-- without any hypothesis on restarts: the ghost stream is a subsequence of the pre-existing
+items followed by the written ones — nothing invented, nothing duplicated, nothing reordered; what
+may be missing is what a truncate-mode restart discarded -/
+theorem grunX_stream_sublist (cfg : Cfg σ) (ops : List XOp) (s : St σ) (g : Ghost) :
+    (grunX cfg s g ops).2.2.stream.Sublist (g.stream ++ writtenItemsX cfg.trig.pre ops (grunX cfg s g ops).1) := by
+  induction ops generalizing s g with
+  | nil => simp [grunX, writtenItemsX]
+  | cons op ops ih =>
+    simp only [grunX]
+    refine (ih _ _).trans ?_
+    cases op with
+    | appendFail r n f =>
+      rw [ghostStepX_stream_appendFail]
+      simp [writtenItemsX]
+    | op o =>
+      cases o with
+      | append r f =>
+        simp only [applyX, applyOp, writtenItemsX]
+        rw [ghostStepX_stream_append]
+        simp
+      | restart =>
+        have hsub : ∀ gone, (ghostStepX cfg g (.op .restart) none gone).stream.Sublist g.stream := by
+          intro gone
+          simp only [ghostStepX, Ghost.stream]
+          split
+          · exact List.Sublist.refl _
+          · simp
+        simp only [applyX, applyOp, writtenItemsX]
+        exact List.Sublist.append (hsub _) (List.Sublist.refl _)
+      | tick dt => simp [applyX, applyOp, writtenItemsX, ghostStepX]
+
+/-- … and exactly what it discards: after a restart (truncate mode: the active segment is dropped
+at open, the archives are untouched) followed by a restart-free history, the stream is what had
+been archived before, followed by everything written since -/
+theorem grunX_stream_after_restart (cfg : Cfg σ) (ops1 ops2 : List XOp) (s : St σ) (g : Ghost)
+    (ham : cfg.appendMode = false) (hnr : ∀ op ∈ ops2, op.isRestart = false) :
+    let mid := grunX cfg s g ops1
+    let fin := grunX cfg s g (ops1 ++ .op .restart :: ops2)
+    fin.2.2.stream = mid.2.2.closed.flatten ++
+      writtenItemsX cfg.trig.pre ops2 (fin.1.drop (ops1.length + 1)) := by
+  intro mid fin
+  have hlen : mid.1.length = ops1.length := by
+    simp only [mid]
+    rw [grunX_outs]
+    simp [traceX_length]
+  have hfin : fin = _ := grunX_append cfg s g ops1 (.op .restart :: ops2)
+  rw [hfin]
+  simp only [grunX]
+  rw [grunX_stream cfg ops2 _ _ (Or.inr hnr)]
+  have hdrop : ∀ (a b : List (Option Out)) (x : Option Out), a.length = ops1.length →
+      (a ++ x :: b).drop (ops1.length + 1) = b := by
+    intro a b x ha
+    rw [← ha, ← List.drop_drop, List.drop_left]
+    rfl
+  rw [hdrop _ _ _ hlen]
+  simp [ghostStepX, ham, Ghost.stream, mid]
 
 theorem ackedX_sublist_writtenX (pre : Bool) (ops : List XOp) (outs : List (Option Out)) :
     (ackedItemsX ops outs).Sublist (writtenItemsX pre ops outs) := by
